@@ -212,3 +212,35 @@ Theorem model_is_code_plain_timedelta_naive : forall W f N,
   gen_subtract_timedelta_plain (dt_of W f None) N = res_of None (sub_timedelta_naive W f N).
 Proof. exact gen_add_timedelta_plain_naive_eq. Qed.
 Print Assumptions model_is_code_plain_timedelta_naive.
+
+(* ------------------------------------------------------------------ the zone of a DateTime may come from the process-wide LOCAL-TIMEZONE
+   configuration (tz="local", pendulum.local(), _safe_timezone(None)): Model/LocalTzConfig.v, tied to /repo by the localtz-config stream.
+   Whatever object that configuration hands out (a named zone, a zone loaded from a TZif file that has no key, a fixed offset), fixed units
+   added to a value in it move the instant exactly. *)
+From PV Require Import Model.LocalTzConfig Proofs.C03LocalTz.
+
+Theorem local_zone_is_the_last_configured_one : forall s m sys, ltz_get sys (ltz_set (Some m) s) = (m, ltz_set (Some m) s).
+Proof. exact ltz_get_after_set. Qed.
+Print Assumptions local_zone_is_the_last_configured_one.
+
+Theorem local_zone_after_clear_is_the_system_zone_read_once : forall s sys sys',
+  fst (ltz_get sys (ltz_set None s)) = match l_cache s with Some c => c | None => sys end /\
+  (l_mock s = None -> fst (ltz_get sys' (snd (ltz_get sys s))) = fst (ltz_get sys s)).
+Proof. intros s sys sys'. split. exact (ltz_get_after_clear s sys). exact (ltz_system_read_once s sys sys'). Qed.
+Print Assumptions local_zone_after_clear_is_the_system_zone_read_once.
+
+Theorem test_local_timezone_context : forall s m,
+  let '(z, s') := ltz_get 0 (ltz_set (Some m) s) in
+  z = m /\ l_mock (ltz_set None s') = None /\ l_cache (ltz_set None s') = l_cache s.
+Proof. exact ltz_test_context. Qed.
+Print Assumptions test_local_timezone_context.
+
+Theorem add_in_the_local_zone_moves_instant_exactly : forall (zs : Z -> zone), (forall i, wf_zone (zs i) = true) ->
+  forall s sys W f hours minutes seconds us W' f',
+  let z := zs (fst (ltz_get sys s)) in
+  let total := td_total_us 0 hours minutes seconds us in
+  -999999999 <= total / us_per_day <= 999999999 ->
+  add_fixed z W f hours minutes seconds us = Ok (W', f') ->
+  (W', f') = render z (inst z W f + total) /\ inst z W' f' = inst z W f + total.
+Proof. exact add_in_local_zone_exact. Qed.
+Print Assumptions add_in_the_local_zone_moves_instant_exactly.
